@@ -192,13 +192,18 @@ Proof. vm_compute. repeat split. Qed.
 (* ------------------------------------------------------------------ whole calls: distribute *)
 
 (** [Worklist.distribute] (the call users make; [C06_multi_disp] above is about the record emitter it
-    ends in): an accepted call appends the comment records of its label and exactly one R record; the
+    ends in): an accepted call appends the comment records of its label (the lines [ls] of [d_label a];
+    none for no label or an empty one) and exactly one R record; the
     volume of the record is the requested per-well volume, within [0, max_volume]; the multi-dispense
     count of the record times the volume fits into max_volume; it is the requested count if that fits,
     otherwise floor(max_volume / volume), the largest count that fits *)
 Theorem C06_distribute_multi : forall (s : state) (ks kd : nat) (dwells : arr string) (a : distargs) (s' : state),
   distribute s ks kd dwells a = (s', None) ->
   exists ls f,
+    ls = match d_label a with
+         | Some l => if String.eqb l "" then [] else comment_lines l
+         | None => []
+         end /\
     st_wl s' = emit (st_wl s) (map RC ls ++ [RR f]) /\
     match d_volume a with
     | RVInt z => r_volume f = PyI z
@@ -228,14 +233,17 @@ Print Assumptions C06_distribute_too_large.
 (* ------------------------------------------------------------------ whole calls: transfer *)
 
 (** the only source of InvalidOperationError in [transfer] (either device, any wash scheme, any tip,
-    any label): a step of its plan is above max_volume.  (All other failures of the model are
+    any label): a step of its plan - the plan for the partition mode [optimize_partition_by] chose for
+    the two labware and the [partition_by] argument - is above max_volume.  (All other failures of the model are
     [EUnderflow] / [EOverflow] of the labware, [ECompat] of the base class, or [EReject] = "some other
     exception": bad arguments, unknown wells, an invalid wash scheme, a label with a separator.) *)
 Theorem C06_transfer_invalid_origin : forall (s : state) (ks : nat) (swells : arr string) (kd : nat)
     (dwells : arr string) (vols : arr Q) (label : option string) (ws : scheme) (pb : string) (kw : kwargs)
     (s' : state),
   transfer s ks swells kd dwells vols label ws pb kw = (s', Some EInvalidOp) ->
-  exists mode sw dw v,
+  exists Ls Ld mode sw dw v,
+    nth_error (st_lw s) ks = Some Ls /\ nth_error (st_lw s) kd = Some Ld /\
+    optimize_partition_by (is_trough (lw_geom Ls)) (is_trough (lw_geom Ld)) pb = Ok mode /\
     In (Step sw dw v) (plan (w_autosplit (st_wl s)) (w_max (st_wl s)) mode (t_triples swells dwells vols)) /\
     w_max (st_wl s) < v.
 Proof. exact transfer_invalid. Qed.
@@ -262,7 +270,8 @@ Proof. exact exec_step_oversized. Qed.
 Print Assumptions C06_no_split_pair_nothing.
 
 (** without auto_split, a whole transfer containing a volume v > max_volume (v > 0: a zero volume plans
-    no step) is never accepted.  Exactly one of the following happened:
+    no step) is never accepted.  One of the following happened (the statement is an inclusive
+    disjunction; the cases are distinguished by what changed):
     - the arguments were refused and nothing changed (labware and worklist as before); or
     - the label was accepted (its comment records are in [w]) and the plan has a FIRST step (sw, dw, v1)
       above max_volume, preceded by the steps [pre], all within max_volume, and
